@@ -577,6 +577,7 @@ rc::Gen<Case> genSources() {
     Profile pf = profileFor("valid");
     pf.inertExtras = pick(50);
     pf.minArgs = 3;
+    pf.multiValuePct = 70;   // value lists that continue on the next line / source need multi-value arguments
     c.cfg = genConfig(pf);
     if (c.cfg.args.empty()) { c.discarded = true; c.discardWhy = "no_args"; return c; }
     Line base = genValidLine(c.cfg, pf);
@@ -617,6 +618,20 @@ rc::Gen<Case> genSources() {
         }
         auto words = spell(c.cfg, Line{line[k]}, so);
         if (lineHasEmptyWord(words)) return false;   // an empty word cannot be written in a file line / environment string
+        // the free values of a multi-value argument are ordinary words: they may continue on the next file line, and when
+        // the argument is the last one of the file/environment part, on the real command line
+        const bool multiValueUse = line[k].arg >= 0 && c.cfg.args[line[k].arg].multiValue && words.size() >= 3;
+        auto bareFrom = [&](size_t from) { for (size_t w = from; w < words.size(); ++w) if (words[w].empty() || needsAttach(words[w])) return false; return true; };
+        const bool lastBeforeArgv = k + 1 == line.size() || line[k + 1].source == SRC_ARGV;
+        if (multiValueUse && !viaArgument && lastBeforeArgv && !(src == SRC_FILE && nested) && slotKinds()[c.cfg.args[line[k].arg].slot] != K_TUPLE_ISI &&
+            (c.cfg.args[line[k].arg].cardKind == CARD_DEFAULT || c.cfg.args[line[k].arg].cardKind == CARD_NONE) && pick(60)) {
+          size_t keep = *range<size_t>(2, words.size() - 1);
+          if (bareFrom(keep)) {
+            for (size_t w = keep; w < words.size(); ++w) argvWords.push_back(words[w]);
+            words.resize(keep);
+            v.note += " +values continued on argv";
+          }
+        }
         if (src == SRC_FILE && nested && fileSeen >= innerFrom && fileSeen < innerTo) {
           haveFile = true;
           if (fileSeen == innerFrom) { if (!file.empty() && file.back() != '\n') file += "\n"; file += "--arg-file @INNER@\n"; }
@@ -628,7 +643,14 @@ rc::Gen<Case> genSources() {
           haveFile = true;
           const bool atLineStart = file.empty() || file.back() == '\n';
           if (atLineStart && pick(25)) file += pick(50) ? "# a comment line --input 5\n" : "\n";
-          for (size_t w = 0; w < words.size(); ++w) { if (w) file += std::string(static_cast<size_t>(*range<int>(1, 2)), ' '); file += escapeWord(words[w], *range<int>(0, 2)); }
+          for (size_t w = 0; w < words.size(); ++w) {
+            if (w && w >= 2 && multiValueUse && bareFrom(w) && pick(50)) {
+              file += "\n";
+              if (pick(25)) file += pick(50) ? "# comment between the values\n" : "\n";
+              if (v.note.find("+values continued on the next line") == std::string::npos) v.note += " +values continued on the next line";
+            } else if (w) file += std::string(static_cast<size_t>(*range<int>(1, 2)), ' ');
+            file += escapeWord(words[w], *range<int>(0, 2));
+          }
           // next use on the same line or on a new one
           bool moreFile = k + 1 < line.size() && line[k + 1].source == SRC_FILE;
           if (moreFile && pick(40)) file += " "; else file += "\n";
@@ -704,6 +726,8 @@ std::string runSources(const Case &c) {
     if (v.in.haveFile && v.in.fileBody.find('#') != std::string::npos) st.cls("source.file_comment_line");
     if (v.in.haveFile && v.in.fileBody.find('\x02') != std::string::npos) st.cls(vi == 2 ? "source.nested_arg_file_override" : "source.nested_arg_file");
     if (vi == 2) st.cls("source.override");
+    if (v.note.find("+values continued on the next line") != std::string::npos) st.cls("source.value_list_continued_on_next_line");
+    if (v.note.find("+values continued on argv") != std::string::npos) st.cls("source.value_list_continued_on_argv");
   }
   const Variant &sp = c.vars[1];
   bool nonArgv = sp.in.haveFile || sp.in.haveEnv, fromArgv = false;
